@@ -9,8 +9,9 @@ def name? (t : String) : Option Name := if t == "~" then some [] else unhex t
 
 def hx (n : Name) : String := hex n
 
-/-- the harness's allow-list: database `allowed_db`, measurements `cpu`, `mem` -/
-def allowFn (db m : Name) : Bool := db == str "allowed_db" && (m == str "cpu" || m == str "mem")
+/-- the harness's role: database-level write on `allowed_db`, narrowed to measurements `cpu`, `mem` (an empty
+measurement is a database-level question, as in auth.RBACManager) -/
+def allowFn (db m : Name) : Bool := db == str "allowed_db" && (m == [] || m == str "cpu" || m == str "mem")
 
 def cfg? (t : String) : Option Cfg :=
   if t == "rbac" then some { rbacOn := true, hasToken := true, allow := allowFn }
